@@ -110,7 +110,7 @@ example : (parseCBD allContP C15d_lower true (tokensOf caseDoc)).1.map C15_kind 
 
 -- C15_dup_structural_any applied (document with duplicates, skipping program): the conclusion equates two MODELS
 example : (parseCBD pSkip C15d_lower true (tokensOf C15d_doc)).2.1 = (xDocD pSkip C15d_lower true C15d_doc (St.init [])).1 := by
-  rw [C15_dup_structural_any pSkip C15d_lower true C15d_doc (by decide +kernel)]
+  rw [C15_dup_structural_any pSkip C15d_lower true C15d_doc (by decide +kernel) (by decide +kernel)]
 
 -- C15_dup_is_plain_without_duplicates / C15_dup_stop_semantics_without_duplicates applied
 example : parseCBD pSkip C15d_lower false (tokensOf C15_demo) = parseCB pSkip false (tokensOf C15_demo) :=
@@ -131,12 +131,15 @@ example : (parseCBD (C15_dev2 2 (-1) 9 7) C15d_lower true (tokensOf C15d_doc)).2
 def lostDoc : Doc := [{ code := a!"b", body := [.item (a!"_a") (.chr false (a!"1")), .loop [a!"_A"] [[.chr false (a!"2")]]] }]
 example : wfDoc lostDoc = true ∧ (parseCBD allContP C15d_lower true (tokensOf lostDoc)).2.1 = MALFORMED
     ∧ (parseCBR allContP C15d_lower true (tokensOf lostDoc)).2.1 = MALFORMED := by decide +kernel
+-- after the repair (gQ2): the four theorems carry `hdom` in their statements, and `hdom` FAILS on `lostDoc`, so they no longer speak
+-- about it (the hypothesis-free equality survives only as the helper `parseCBR_is_parseCBD`, a fact about the two models)
+example : ¬ ((parseCBD allContP C15d_lower true (tokensOf lostDoc)).2.1 ≠ MALFORMED) := by decide +kernel
 example : parseCBR allContP C15d_lower true (tokensOf lostDoc) = parseCBD allContP C15d_lower true (tokensOf lostDoc) :=
-  C15_rec_is_dup_on_wellformed allContP C15d_lower true lostDoc (by decide +kernel)
+  parseCBR_is_parseCBD allContP C15d_lower true lostDoc (by decide +kernel)
 
 -- C15_dup_events_sublist applied; the conclusion is a SUBLIST of abstracted callbacks with the error callbacks removed
 example : (view (parseCBD pSkip C15d_lower true (tokensOf C15d_doc)).1).Sublist ((docEvents true C15d_doc).map absEv) :=
-  C15_dup_events_sublist pSkip C15d_lower C15d_doc (by decide +kernel)
+  C15_dup_events_sublist pSkip C15d_lower C15d_doc (by decide +kernel) (by decide +kernel)
 -- what `view` forgets: the error callbacks and the names of loop_start (here: two names dropped, `_x _y` retained of four)
 example : view [errEv 53, .loopStart [a!"_x", a!"_y"]] = view [.loopStart [a!"_x", a!"_A", a!"_y", a!"_X"]] := by
   simp [view, absEv, isErr, errEv]
@@ -163,10 +166,10 @@ example : (parseLoopD allContP C15d_lower 20 true heldA
 
 -- C15_rec_is_dup_on_wellformed(_layout) applied: document with duplicates, skipping program
 example : parseCBR pSkip C15d_lower true (tokensOf C15d_doc) = parseCBD pSkip C15d_lower true (tokensOf C15d_doc) :=
-  C15_rec_is_dup_on_wellformed pSkip C15d_lower true C15d_doc (by decide +kernel)
+  C15_rec_is_dup_on_wellformed pSkip C15d_lower true C15d_doc (by decide +kernel) (by decide +kernel)
 example : (parseCBR pSkip C15d_lower false (C15_withLayout C15_demoLayout (tokensOf C15d_doc))).2.1
     = (parseCBD pSkip C15d_lower false (tokensOf C15d_doc)).2.1 :=
-  (C15_rec_is_dup_on_wellformed_layout pSkip C15d_lower false C15d_doc (by decide +kernel) _ (C15_withLayout_skel C15_demoLayout _)).1
+  (C15_rec_is_dup_on_wellformed_layout pSkip C15d_lower false C15d_doc (by decide +kernel) (by decide +kernel) _ (C15_withLayout_skel C15_demoLayout _)).1
 
 /-- FINDING R1 (what "well-formed" excludes / the token-level theorems outside it).  `data_b loop_ _x _y 1` (truncated packet) is not
     `wfDoc`.  There the model the driver RUNS recovers (CIF_PARTIAL_PACKET, packet_end, result 0) while the models the token-level
